@@ -19,6 +19,29 @@ def crate_of(c, io3):
     ps = find(c, 'ps')[1]
     return files, rustlay.Crate(files, ps, extern_table(c))
 
+def void_tainted(crate):
+    """paths of emitted structs that embed `::std::ffi::c_void` BY VALUE (directly, in arrays, or through other structs):
+    pyxis gives by-value `void` size 0, the emitted c_void has size 1 – the open finding `…/by-value-void`"""
+    import re
+    def elem(ty):
+        ty = ty.strip()
+        m = re.match(r'^\[(.*);\s*\d+\]$', ty)
+        while m:
+            ty = m.group(1).strip(); m = re.match(r'^\[(.*);\s*\d+\]$', ty)
+        return ty
+    out = set()
+    changed = True
+    while changed:
+        changed = False
+        for pth, it in crate.items.items():
+            if pth in out or tag(it) != 'struct':
+                continue
+            for f in it[6:]:
+                e = elem(f[4])
+                if e == '::std::ffi::c_void' or e in out:
+                    out.add(pth); changed = True; break
+    return out
+
 def input_type_size(t, crate, modpath, named_size):
     """size of an input type expression when it can be told without name resolution, else None"""
     k = tag(t)
@@ -87,7 +110,13 @@ def rustc_layout_validation(prop, cases, impl, tier, sample_quick=30):
                 continue
             pyx = [d for d in detail if 'pyxis resolved' in d]
             if pyx:
-                fs.append(Finding('O', prop + '/compiler-layout-differs-from-resolved', c[1], '; '.join(pyx)[:600]))
+                from .. import o4 as _o4
+                import re as _re
+                files_, crate_ = crate_of(c, canon.canon_o3(impl[c[1]]['o3'], 'impl'))
+                tainted = {_o4.flat_name(p_[len('crate::'):]) for p_ in void_tainted(crate_)}
+                names = set(_re.findall(r'(?:size_of|align_of)::<([A-Za-z0-9_]+)>', ' '.join(pyx)))
+                suffix = '/by-value-void' if names and names <= tainted else ''
+                fs.append(Finding('O', prop + '/compiler-layout-differs-from-resolved' + suffix, c[1], '; '.join(pyx)[:600]))
             else:
                 fs.append(Finding('K', prop + '/layout-model-differs-from-rustc', c[1], '; '.join(detail)[:600]))
     info['dist'] += ['rustc-layout-assertions'] * 0
